@@ -434,6 +434,12 @@ def main(args: list[str]) -> int:
         print(f"refurb: {e}")
         return 1
 
+    except OSError as e:
+        # A file refurb itself reads or writes (the `--timing-stats` file, the
+        # temporary file behind it, a source file that has gone away) is unusable
+        print(f"refurb: {e}")
+        return 1
+
     if formatted_errors := format_errors(errors, settings):
         print(formatted_errors)
 
